@@ -266,6 +266,17 @@ def run_list_prop(prop, tier, seed, only_kinds=None, harness_variant='std', coll
         # the memory monitor: uninitialised reads, out-of-bounds, use after free, leaks of the cache's own allocations)
         if prop in ('C03', 'C18') and tier == 'thorough' and not os.environ.get('VERIF_NO_MIRI'):
             viols += miri_tier(prop, jobs, work)
+        if prop == 'C01' and collect is None and not os.environ.get('VERIF_NO_CTOR'):
+            # the configured bounds themselves: every successful constructor / builder chain carries the capacities, quotas
+            # and sample sizes it was given (Ctor.tla, Shape)
+            import extra
+            gj, gv = extra.ctor_grid('std', work, binary, prop='C01')
+            gj['kind'] = 'ctor'
+            for d in gv:
+                d['kind'] = None
+                d['what'] += ' shape=' + json.dumps((d.get('record') or {}).get('shape'))
+            jobs.append(gj)
+            viols += gv
         proofs = None
         if apa_future:
             proofs = [f.result() for f in apa_future]
